@@ -549,36 +549,46 @@ func generate(prop string, seed int64, tier string) *Plan {
 		}
 	}
 	g.kindsOff["sprintf"] = false
-	var mk func() Op
-	switch prop {
-	case "C11":
-		mk = func() Op { return g.opC11() }
-	case "C13":
+	if prop == "C13" {
 		p.Cfg.Sink = true
-		mk = func() Op { return g.opC13() }
-	case "C15":
-		mk = func() Op { return g.opC15() }
-	case "C16":
-		p.Cfg.Sink = g.chance(0.5)
-		mk = func() Op { return g.opC16() }
-	default:
-		mk = func() Op { return g.op(0) }
 	}
-	for ti := 0; ti < nt; ti++ {
-		n := 1 + g.r.Intn(maxOps)
-		var t Task
-		for i := 0; i < n; i++ {
-			g.nextID = 0
-			var op Op
-			if prop != "C12" && g.chance(0.35) {
-				op = g.op(0) // background traffic that dirties the pool
-			} else {
-				op = mk()
-			}
-			t.Ops = append(t.Ops, op)
+	if prop == "C16" || prop == "C12" {
+		p.Cfg.Sink = g.chance(0.5)
+	}
+	// the run's ops, then dealt to the tasks
+	target := nt * (1 + g.r.Intn(maxOps))
+	var ops []Op
+	for len(ops) < target {
+		g.nextID = 0
+		if prop != "C12" && g.chance(0.3) {
+			ops = append(ops, g.op(0)) // background traffic that dirties the pool
+			continue
 		}
-		t.Tape = g.tape(n*(6+g.r.Intn(30)), pz, special)
-		p.Tasks = append(p.Tasks, t)
+		switch prop {
+		case "C11":
+			if g.chance(0.25) {
+				ops = append(ops, g.c11Edge())
+			} else {
+				ops = append(ops, g.c11Base(p.Cfg.Hook)...)
+			}
+		case "C13":
+			ops = append(ops, g.opC13())
+		case "C15":
+			ops = append(ops, g.opC15())
+		case "C16":
+			ops = append(ops, g.opC16())
+		default:
+			ops = append(ops, g.op(0))
+		}
+	}
+	p.Tasks = make([]Task, nt)
+	for _, op := range ops {
+		ti := g.r.Intn(nt)
+		p.Tasks[ti].Ops = append(p.Tasks[ti].Ops, op)
+	}
+	for ti := range p.Tasks {
+		n := len(p.Tasks[ti].Ops)
+		p.Tasks[ti].Tape = g.tape(n*(6+g.r.Intn(30)), pz, special)
 	}
 	if p.Cfg.Sink {
 		p.Cfg.SinkSteps = 2 + g.r.Intn(20)
@@ -586,7 +596,6 @@ func generate(prop string, seed int64, tier string) *Plan {
 	return p
 }
 
-func (g *gen) opC11() Op { return g.op(0) }
 func (g *gen) opC13() Op { return g.op(0) }
 func (g *gen) opC15() Op { return g.op(0) }
 func (g *gen) opC16() Op { return g.op(0) }
